@@ -1058,16 +1058,23 @@ impl<'de> Visitor<'de> for V<'_> {
         record(v.as_bytes());
         Ok(Val::Str(v.to_owned()))
     }
-    fn visit_str<E>(self, v: &str) -> Result<Val, E> {
+    fn visit_str<E: de::Error>(self, v: &str) -> Result<Val, E> {
         TRANSIENT.with(|t| t.set(t.get() + 1));
+        if RECORD.with(|r| r.get()) {
+            // a zero-copy target (`&'de str`) cannot take a transient string: same error as serde's
+            return Err(E::invalid_type(de::Unexpected::Str(v), &"a borrowed string"));
+        }
         Ok(Val::Str(v.to_owned()))
     }
     fn visit_borrowed_bytes<E>(self, v: &'de [u8]) -> Result<Val, E> {
         record(v);
         Ok(Val::Bytes(v.to_vec()))
     }
-    fn visit_bytes<E>(self, v: &[u8]) -> Result<Val, E> {
+    fn visit_bytes<E: de::Error>(self, v: &[u8]) -> Result<Val, E> {
         TRANSIENT.with(|t| t.set(t.get() + 1));
+        if RECORD.with(|r| r.get()) {
+            return Err(E::invalid_type(de::Unexpected::Bytes(v), &"a borrowed byte array"));
+        }
         Ok(Val::Bytes(v.to_vec()))
     }
     fn visit_none<E>(self) -> Result<Val, E> {
